@@ -159,6 +159,12 @@ F5b == {Prog("F5b", <<S(Call("h", <<>>)), S(Asg("=", Var("b"), c))>>) : c \in Ca
        \cup {Prog("F5b", <<S(Asg("=", Var("a"), Bin(op, Call("f", <<x>>), Call("k", <<>>))))>>) : x \in Arg, op \in {"+", "-"}}
        \cup {Prog("F5b", <<S(Asg("=", Var("a"), Call("m2", <<x>>)))>>) : x \in Arg}
 
+\* F5c: a value is loaded, a call (which leaves other flags behind) follows, and the value is then tested or stored:
+\* the generator's flags / register beliefs must not survive the call, whether it is a JSR or an inline expansion
+CallS == {S(Call("h", <<>>)), S(Call("w", <<Var("b")>>)), S(Call("w", <<Num(0)>>)), S(Call("z0", <<>>)), S(Asg("=", Var("b"), Call("k", <<>>))), S(Asg("=", Var("b"), Call("f", <<Var("b")>>)))}
+TestsOn(r) == {If(r, ThenElse[1], ThenElse[2]), If(Un("!", r), <<Set("sb", 1)>>, <<Set("sb", 2)>>), If(Bin("==", r, Num(0)), <<Set("sb", 1)>>, <<>>),
+               S(Asg("=", Var("t"), r)), If(Bin("<", r, Num(3)), <<Set("sb", 1)>>, <<Set("sb", 2)>>)}
+F5c == UNION {{Prog("F5c", <<S(Asg("=", r, v)), cl, t>>) : v \in {Var("a"), Idx("arr", Num(2)), Num(0), Num(5)}, cl \in CallS, t \in TestsOn(r)} : r \in {Var("X"), Var("c"), Var("s")}}
 \* F6: calls of functions whose bodies contain loops, early returns, switches, locals and further calls
 \* (compared variant against variant by C14; these functions have no CSem body)
 C6 == {Call("lp", <<x>>) : x \in {Var("b"), Num(3), Var("X")}} \cup {Call("er", <<x>>) : x \in {Var("a"), Num(128), Idx("arr", Var("X"))}}
@@ -179,12 +185,36 @@ Tests == {If(Var("a"), ThenElse[1], ThenElse[2]), If(Bin("==", Var("X"), Num(0))
           If(Var("s"), ThenElse[1], ThenElse[2]), If(Un("!", Var("Y")), ThenElse[1], ThenElse[2]), S(Asg("=", Var("c"), Var("a"))), S(Asg("=", Var("c"), Var("X")))}
 F7a == {Prog("F7a", <<p, q>>) : p \in Pool, q \in Tests}
 F7b == {Prog("F7b", <<p, q, r>>) : p \in Pool, q \in Pool, r \in Tests}
+F7c == {Prog("F7c", <<p, q, r>>) : p \in Pool, q \in Pool, r \in Pool}
 
 \* FW: witnesses of defect classes that the families above deliberately stay out of (known findings)
 FW == {Prog("FW", <<S(Asg("=", Var("s"), Bin("<<", Var("a"), Num(1))))>>), Prog("FW", <<S(Asg("=", Var("s"), Bin(">>", Var("b"), Num(1))))>>),
        Prog("FW", <<S(Asg("=", Var("ss"), Un("!", Var("a"))))>>), Prog("FW", <<S(Asg("=", Var("s"), Un("~", Var("s"))))>>),
        Prog("FW", <<S(Asg("=", Var("s"), Bin("<", Var("a"), Var("b"))))>>), Prog("FW", <<S(Asg("=", Var("s"), Call("f", <<Var("b")>>)))>>),
        Prog("FW", <<S(Asg("=", Var("s"), Cond(Bin("<", Var("a"), Num(200)), Num(5), Var("X"))))>>)}
+\* F9: operand-kind coverage: every destination kind with every source kind, plain and compound, including
+\* Y-indexed arrays of shorts, pointer dereference and pointer indexing (the addressing modes C04/C13 quantify over)
+Leaf9 == Leaf \cup {Idx("sarr", Var("Y")), Idx("tab", Var("Y")), Deref("p"), Idx("p", Var("Y")), Idx("arr", Num(0)), Idx("sarr", Num(1))}
+Dst9 == Dst \cup {Idx("sarr", Var("Y")), Deref("p"), Idx("p", Var("Y")), Idx("sarr", Num(2)), Var("b")}
+F9 == {Prog("F9", <<S(Asg("=", d, l))>>) : d \in Dst9, l \in Leaf9}
+      \cup {Prog("F9", <<S(Asg(op, d, l))>>) : op \in {"+", "&"}, d \in Dst9, l \in Leaf9 \ Leaf}
+      \cup {Prog("F9", <<S(Asg(op, d, l))>>) : op \in {"+", "&"}, d \in Dst9 \ Dst, l \in Leaf9}
+      \cup {Prog("F9", <<If(Bin(op, l, r), ThenElse[1], ThenElse[2])>>) : op \in {"==", "<"}, l \in Leaf9 \ Leaf, r \in {Var("a"), Num(1)}}
+\* F8: "reload after modify": a register (or the accumulator path) is loaded from v, v is then modified by some
+\* statement, and the register is loaded from v again and observed.  Every register belief of the optimiser
+\* and every flags / carry belief of the generator must be dropped by the modifier, or the second load is lost.
+RegDst == {Var("X"), Var("Y"), Var("c")}
+Modified == {Var("a"), Idx("arr", Num(2)), Var("s")}
+Modifier(v) == {S(Inc(FALSE, 1, v)), S(Inc(FALSE, -1, v)), S(Inc(TRUE, 1, v)), S(Asg("+", v, Num(1))), S(Asg("-", v, Var("b"))), S(Asg("=", v, Var("b"))),
+                S(Asg("<<", v, Num(1))), S(Asg(">>", v, Num(1))), S(Asg("|", v, Num(128))), S(Asg("=", v, Num(0)))}
+                \cup (IF v = Var("a") THEN {S(Call("h", <<>>))} ELSE {})
+F8 == UNION {{Prog("F8", <<S(Asg("=", r, v)), m, S(Asg("=", r, v)), S(Asg("=", Var("b"), r))>>) : r \in RegDst, m \in Modifier(v)} : v \in Modified}
+      \cup UNION {{Prog("F8", <<S(Asg("=", r, v)), S(Asg("=", Var("t"), r)), m, S(Asg("=", r, v)), S(Asg("=", Idx("arr", Num(5)), r))>>) : r \in {Var("X"), Var("Y")}, m \in Modifier(v)} : v \in {Var("a"), Idx("arr", Num(2))}}
+      \cup {Prog("F8", <<S(Asg("=", r, Var("a"))), m, If(Bin("==", r2, Var("a")), ThenElse[1], ThenElse[2])>>) : r \in RegDst, r2 \in {Var("X"), Var("Y")}, m \in Modifier(Var("a"))}
+      \cup {Prog("F8", <<S(Asg("=", Var("X"), Num(k))), S(Asg("=", Var("c"), Idx("arr", Var("X")))), mx, S(Asg("=", Var("b"), Idx("arr", Var("X"))))>>) :
+               k \in {1, 3}, mx \in {S(Inc(FALSE, 1, Var("X"))), S(Inc(TRUE, -1, Var("X"))), S(Asg("=", Var("X"), Num(2))), S(Asg("=", Idx("arr", Var("X")), Num(9))), S(Asg("=", Var("X"), Var("Y")))}}
+      \cup {Prog("F8", <<S(Asg("=", Var("Y"), Num(k))), S(Asg("=", Var("c"), Idx("arr", Var("Y")))), my, S(Asg("=", Var("b"), Idx("arr", Var("Y"))))>>) :
+               k \in {1, 3}, my \in {S(Inc(FALSE, 1, Var("Y"))), S(Inc(TRUE, -1, Var("Y"))), S(Asg("=", Var("Y"), Num(2))), S(Asg("=", Idx("arr", Var("Y")), Num(9))), S(Asg("=", Var("Y"), Var("X")))}}
 \* FX: explicit hardware-access statements mixed with ordinary code (C18).  PORT1..PORT3 are io cells declared by the driver.
 Load(e) == [k |-> "load", e |-> e]
 Store(e) == [k |-> "store", e |-> e]
@@ -213,8 +243,16 @@ RW == {Pair2("commute", <<S(Asg("=", d, Bin(op, l, r)))>>, <<S(Asg("=", d, Bin(o
       \cup {Pair2("preinc", <<S(Asg("=", x, Inc(TRUE, 1, d)))>>, <<S(Asg("+", d, Num(1))), S(Asg("=", x, d))>>) : x \in {Var("b"), Var("Y")}, d \in {Var("a"), Var("X"), Var("s")}}
       \cup {Pair2("negcond", <<If(c, <<Set("c", 1)>>, <<Set("c", 2)>>)>>, <<If(Un("!", c), <<Set("c", 2)>>, <<Set("c", 1)>>)>>) : c \in RwCond}
       \cup {Pair2("negcond", <<If(c, <<S(Inc(FALSE, 1, Var("a")))>>, <<S(Asg("=", Var("X"), Var("b")))>>)>>, <<If(Un("!", c), <<S(Asg("=", Var("X"), Var("b")))>>, <<S(Inc(FALSE, 1, Var("a")))>>)>>) : c \in RwCond}
+      \cup {Pair2("negcond", <<S(Asg("=", r, Var("a"))), If(c, <<Set("c", 1)>>, <<If(r, <<Set("c", 2)>>, <<>>)>>)>>,
+                              <<S(Asg("=", r, Var("a"))), If(Un("!", c), <<If(r, <<Set("c", 2)>>, <<>>)>>, <<Set("c", 1)>>)>>) : r \in {Var("X"), Var("sb")}, c \in {Bin("==", Var("Y"), Num(3)), Bin("<", Var("b"), Num(7)), Var("b")}}
+      \cup {Pair2("negcond", <<S(Asg("=", r, Var("a"))), If(c, <<If(Un("!", r), <<Set("c", 2)>>, <<Set("c", 3)>>)>>, <<Set("c", 1)>>)>>,
+                              <<S(Asg("=", r, Var("a"))), If(Un("!", c), <<Set("c", 1)>>, <<If(Un("!", r), <<Set("c", 2)>>, <<Set("c", 3)>>)>>)>>) : r \in {Var("X"), Var("sb")}, c \in {Bin("!=", Var("Y"), Num(3)), Var("b")}}
       \cup {Pair2("swaprel", <<If(Bin(o[1], l, r), <<Set("c", 1)>>, <<Set("c", 2)>>)>>, <<If(Bin(o[2], r, l), <<Set("c", 1)>>, <<Set("c", 2)>>)>>) :
                o \in {<<"<", ">">>, <<"<=", ">=">>, <<">", "<">>, <<">=", "<=">>}, l \in CmpLeaf, r \in CmpLeaf}
+      \cup {Pair2("negcond", <<S(Asg("=", r, Var("a"))), If(c, <<Set("c", 1)>>, <<If(r, <<Set("c", 2)>>, <<>>)>>)>>,
+                              <<S(Asg("=", r, Var("a"))), If(Un("!", c), <<If(r, <<Set("c", 2)>>, <<>>)>>, <<Set("c", 1)>>)>>) : r \in {Var("X"), Var("sb")}, c \in {Bin("==", Var("Y"), Num(3)), Bin("<", Var("b"), Num(7)), Var("b")}}
+      \cup {Pair2("negcond", <<S(Asg("=", r, Var("a"))), If(c, <<If(Un("!", r), <<Set("c", 2)>>, <<Set("c", 3)>>)>>, <<Set("c", 1)>>)>>,
+                              <<S(Asg("=", r, Var("a"))), If(Un("!", c), <<Set("c", 1)>>, <<If(Un("!", r), <<Set("c", 2)>>, <<Set("c", 3)>>)>>)>>) : r \in {Var("X"), Var("sb")}, c \in {Bin("!=", Var("Y"), Num(3)), Var("b")}}
       \cup {Pair2("swaprel", <<S(Asg("=", Var("c"), Bin(o[1], l, r)))>>, <<S(Asg("=", Var("c"), Bin(o[2], r, l)))>>) :
                o \in {<<"<", ">">>, <<"<=", ">=">>}, l \in CmpLeaf, r \in CmpLeaf}
       \cup {Pair2("forwhile", <<For(Asg("=", i, Num(lo)), Bin(op, i, hi), Inc(FALSE, 1, i), b)>>,
@@ -232,8 +270,8 @@ RW == {Pair2("commute", <<S(Asg("=", d, Bin(op, l, r)))>>, <<S(Asg("=", d, Bin(o
       \cup {Pair2("callbody", <<S(Asg("=", d, Call("g", <<x, y>>)))>>, <<S(Asg("=", d, Bin("-", x, y)))>>) : d \in {Var("a"), Var("Y")}, x \in Arg, y \in {Var("b"), Num(1)}}
       \cup {Pair2("callbody", <<S(Call("h", <<>>)), S(Asg("=", Var("b"), Var("a")))>>, <<S(Inc(FALSE, 1, Var("a"))), S(Asg("=", Var("b"), Var("a")))>>)}
       \cup {Pair2("callbody", <<S(Call("w", <<x>>))>>, <<S(Asg("=", Var("c"), x))>>) : x \in Arg}
-AllFams == FW \cup F6 \cup F1a \cup F1b \cup F1c \cup F1d \cup F1e \cup F1f \cup F1g \cup F2a \cup F2b \cup F2c \cup F2z \cup F2s
-           \cup F3a \cup F3b \cup F3c \cup F4 \cup F5a \cup F5b \cup F7a \cup F7b
+AllFams == FW \cup F5c \cup F6 \cup F8 \cup F9 \cup F1a \cup F1b \cup F1c \cup F1d \cup F1e \cup F1f \cup F1g \cup F2a \cup F2b \cup F2c \cup F2z \cup F2s
+           \cup F3a \cup F3b \cup F3c \cup F4 \cup F5a \cup F5b \cup F7a \cup F7b \cup F7c
 Family ==
   CASE Fam = "ALL" -> AllFams [] Fam = "RW" -> RW [] Fam = "FX" -> FX \cup FS
     [] Fam = "F1a" -> F1a [] Fam = "F1b" -> F1b [] Fam = "F1c" -> F1c [] Fam = "F1d" -> F1d
@@ -241,7 +279,7 @@ Family ==
     [] Fam = "F2a" -> F2a [] Fam = "F2b" -> F2b [] Fam = "F2c" -> F2c [] Fam = "F2z" -> F2z [] Fam = "F2s" -> F2s
     [] Fam = "F3a" -> F3a [] Fam = "F3b" -> F3b [] Fam = "F3c" -> F3c
     [] Fam = "F4" -> F4 [] Fam = "F5a" -> F5a [] Fam = "F5b" -> F5b
-    [] Fam = "F7a" -> F7a [] Fam = "F7b" -> F7b [] Fam = "FW" -> FW [] Fam = "F6" -> F6
+    [] Fam = "F7a" -> F7a [] Fam = "F7b" -> F7b [] Fam = "F7c" -> F7c [] Fam = "FW" -> FW [] Fam = "F5c" -> F5c [] Fam = "F6" -> F6 [] Fam = "F8" -> F8 [] Fam = "F9" -> F9
 
 VARIABLE prog
 Init == prog \in Family
